@@ -16,49 +16,65 @@ attribute [local irreducible] Db.new Db.add Db.update Db.readSupported Db.select
 /-- fields a READ / echo preparation leaves alone (all but `db`, `solBuf`, `select`) -/
 def keepRd (s : OState) :=
   (s.cfg, s.script, s.now, s.mode, s.restart, s.en1, s.en2, s.en3, s.lastReq, s.unsol, s.unsolSeq, s.deferred,
-   s.lastRecorded, s.lastBroadcast, s.unsolBuf, s.frameId, s.nextLinkStatus, s.pending, s.notified)
+   s.lastRecorded, s.lastBroadcast, s.unsolBuf, s.frameId, s.nextLinkStatus, s.pending, s.notified,
+   s.unsolReported)
 
-/-- first half of `handleRequestFromIdle`: what `result` is -/
+/-- first half of `handleRequestFromIdle`: what `result` is (the `Bool` beside the request record is
+    the echo flag: `true` only for a repeated non-READ request) -/
 inductive IdleStage1 (a : Acc) (f : Frag) (ctrl : AppCtrl) (func : Nat) (objs : Except Nat (List ObjHdr))
-    (raw : List Nat) : Acc → Option LastReq → Prop
+    (raw : List Nat) : Acc → Option (LastReq × Bool) → Prop
   | confirm : func = 0 → IdleStage1 a f ctrl func objs raw a none
   | bcast (m : Nat) (a1 : Acc) : func ≠ 0 → f.broadcast = some m →
       processBroadcast a f m ctrl func objs raw = some a1 → IdleStage1 a f ctrl func objs raw a1 none
   | nonRead (hs : List ObjHdr) (a1 : Acc) (r : Option Resp) : func ≠ 0 → func ≠ 1 → f.broadcast = none →
       objs = .ok hs → handleNonRead a func ctrl.seq f.id hs raw = some (a1, r) →
-      IdleStage1 a f ctrl func objs raw a1 (some ⟨ctrl.seq, f.data, r, none⟩)
+      IdleStage1 a f ctrl func objs raw a1 (some (⟨ctrl.seq, f.data, r, none⟩, false))
   | prep (s1 : OState) (lr : LastReq) : keepRd s1 = keepRd a.1 → func ≠ 0 → f.broadcast = none →
-      IdleStage1 a f ctrl func objs raw (s1, a.2) (some lr)
+      IdleStage1 a f ctrl func objs raw (s1, a.2) (some (lr, false))
+  | echo (s1 : OState) (last : Option Resp) : keepRd s1 = keepRd a.1 → func ≠ 0 → func ≠ 1 → f.broadcast = none →
+      (s1 = a.1 ∨ ∃ sel, a.1.select = some sel ∧ func = 3 ∧ sel.seq = ctrl.seq ∧
+        (sel.frameId + 1) % 4294967296 = f.id ∧ sel.objects = raw ∧
+        s1 = { a.1 with select := some { sel with frameId := f.id } }) →
+      IdleStage1 a f ctrl func objs raw (s1, a.2)
+        (some (⟨ctrl.seq, f.data, last, a.1.lastReq.bind (·.series)⟩, true))
 
-/-- second half: store `lastReq`, transmit the response if there is one -/
-def IdleStage2 (a1 : Acc) (lr : Option LastReq) (f : Frag) (a' : Acc) : Prop :=
+/-- second half: store `lastReq`, transmit the response if there is one (an echo goes out verbatim
+    through `repeatSolicited` and the record is stored as it is) -/
+def IdleStage2 (a1 : Acc) (lr : Option (LastReq × Bool)) (f : Frag) (a' : Acc) : Prop :=
   match lr with
   | none => a' = a1
-  | some lr =>
+  | some (lr, false) =>
     (lr.response = none ∧ ∃ lr', a' = ({ a1.1 with lastReq := some lr' }, a1.2)) ∨
     (∃ r a2 r2 lr', lr.response = some r ∧ writeSolicited a1 f.src r = some (a2, r2) ∧
       a' = ({ a2.1 with lastReq := some lr' }, a2.2))
+  | some (lr, true) =>
+    (lr.response = none ∧ a' = ({ a1.1 with lastReq := some lr }, a1.2)) ∨
+    (∃ r, lr.response = some r ∧
+      a' = ({ (repeatSolicited a1 f.src r).1 with lastReq := some lr }, (repeatSolicited a1 f.src r).2))
 
 /-- `result` of `handleRequestFromIdle` (verbatim) -/
 def idleStage1 (a : Acc) (f : Frag) (ctrl : AppCtrl) (func : Nat)
-    (objects : Except Nat (List ObjHdr)) (raw : List Nat) : Option (Acc × Option LastReq) :=
+    (objects : Except Nat (List ObjHdr)) (raw : List Nat) : Option (Acc × Option (LastReq × Bool)) :=
   let seq := ctrl.seq
   match classify a.1 f ctrl func objects with
-    | .malformed e => some (a, some ⟨seq, f.data, some (emptySolicited seq e), none⟩)
+    | .malformed e => some (a, some (⟨seq, f.data, some (emptySolicited seq e), none⟩, false))
     | .newRead hs | .repeatRead _ hs =>
       let (db, iin2) := dbSelectAll a.1.db hs
       let (s, r, series) := formatReadResponse { a.1 with db := db } true seq iin2
-      some ((s, a.2), some ⟨seq, f.data, some r, series⟩)
+      some ((s, a.2), some (⟨seq, f.data, some r, series⟩, false))
     | .newNonRead hs =>
       match handleNonRead a func seq f.id hs raw with
       | none => none
-      | some (a, r) => some (a, some ⟨seq, f.data, r, none⟩)
+      | some (a, r) => some (a, some (⟨seq, f.data, r, none⟩, false))
     | .repeatNonRead last =>
       let s := a.1
       let s := match s.select with
-        | some sel => { s with select := some { sel with frameId := f.id } }
+        | some sel =>
+          if func = 3 ∧ sel.seq = seq ∧ (sel.frameId + 1) % 4294967296 = f.id ∧ sel.objects = raw then
+            { s with select := some { sel with frameId := f.id } }
+          else s
         | none => s
-      some ((s, a.2), some ⟨seq, f.data, last, none⟩)
+      some ((s, a.2), some (⟨seq, f.data, last, s.lastReq.bind (·.series)⟩, true))
     | .broadcast mode =>
       match processBroadcast a f mode ctrl func objects raw with
       | none => none
@@ -66,14 +82,18 @@ def idleStage1 (a : Acc) (f : Frag) (ctrl : AppCtrl) (func : Nat)
     | .solConfirm _ | .unsolConfirm _ => some (a, none)
 
 /-- the rest of `handleRequestFromIdle` (verbatim) -/
-def idleStage2 (f : Frag) (result : Option (Acc × Option LastReq)) : Option (Acc × Option Series) :=
+def idleStage2 (f : Frag) (result : Option (Acc × Option (LastReq × Bool))) : Option (Acc × Option Series) :=
   match result with
   | none => none
   | some (a, none) => some (a, none)
-  | some (a, some lr) =>
+  | some (a, some (lr, echo)) =>
     match lr.response with
     | none => some (({ a.1 with lastReq := some lr }, a.2), lr.series)
     | some r =>
+      if echo then
+        let a := repeatSolicited a f.src r
+        some (({ a.1 with lastReq := some lr }, a.2), lr.series)
+      else
       match writeSolicited a f.src r with
       | none => none
       | some (a, r) =>
@@ -85,7 +105,7 @@ theorem handleRequestFromIdle_eq (a : Acc) (f : Frag) (ctrl : AppCtrl) (func : N
     handleRequestFromIdle a f ctrl func objs raw = idleStage2 f (idleStage1 a f ctrl func objs raw) := rfl
 
 theorem idleStage1_cases (a : Acc) (f : Frag) (ctrl : AppCtrl) (func : Nat)
-    (objs : Except Nat (List ObjHdr)) (raw : List Nat) (a1 : Acc) (lr : Option LastReq)
+    (objs : Except Nat (List ObjHdr)) (raw : List Nat) (a1 : Acc) (lr : Option (LastReq × Bool))
     (heq : idleStage1 a f ctrl func objs raw = some (a1, lr)) : IdleStage1 a f ctrl func objs raw a1 lr := by
   unfold idleStage1 at heq
   have cf := classify_facts a.1 f ctrl func objs
@@ -103,9 +123,21 @@ theorem idleStage1_cases (a : Acc) (f : Frag) (ctrl : AppCtrl) (func : Nat)
     · rename_i a2 r hn
       cases heq
       exact .nonRead hs _ r cf.1 cf.2.1 cf.2.2.1 cf.2.2.2 hn
-  · rename_i last hc; rw [hc] at cf; simp only [ClassifyFacts] at cf; cases heq
-    refine .prep _ _ ?_ cf.1 cf.2.2
-    split <;> rfl
+  · rename_i last hc; rw [hc] at cf; simp only [ClassifyFacts] at cf
+    dsimp only at heq
+    cases hsel : a.1.select with
+    | none =>
+      rw [hsel] at heq; cases heq
+      exact .echo _ last rfl cf.1 cf.2.1 cf.2.2 (Or.inl rfl)
+    | some sel =>
+      rw [hsel] at heq
+      dsimp only at heq
+      by_cases hcond : func = 3 ∧ sel.seq = ctrl.seq ∧ (sel.frameId + 1) % 4294967296 = f.id ∧ sel.objects = raw
+      · rw [if_pos hcond] at heq; cases heq
+        exact .echo _ last rfl cf.1 cf.2.1 cf.2.2
+          (Or.inr ⟨sel, hsel, hcond.1, hcond.2.1, hcond.2.2.1, hcond.2.2.2, rfl⟩)
+      · rw [if_neg hcond] at heq; cases heq
+        exact .echo _ last rfl cf.1 cf.2.1 cf.2.2 (Or.inl rfl)
   · rename_i m hc; rw [hc] at cf; simp only [ClassifyFacts] at cf
     dsimp only at heq
     split at heq
@@ -116,23 +148,37 @@ theorem idleStage1_cases (a : Acc) (f : Frag) (ctrl : AppCtrl) (func : Nat)
   · rename_i hc; rw [hc] at cf; simp only [ClassifyFacts] at cf; cases heq; exact .confirm cf.1
   · rename_i hc; rw [hc] at cf; simp only [ClassifyFacts] at cf; cases heq; exact .confirm cf.1
 
-theorem idleStage2_cases (f : Frag) (a1 : Acc) (lr : Option LastReq) (a' : Acc) (ser : Option Series)
+theorem idleStage2_cases (f : Frag) (a1 : Acc) (lr : Option (LastReq × Bool)) (a' : Acc) (ser : Option Series)
     (h : idleStage2 f (some (a1, lr)) = some (a', ser)) : IdleStage2 a1 lr f a' := by
   unfold idleStage2 at h
   cases lr with
   | none => cases h; rfl
-  | some lr =>
-    dsimp only at h
-    split at h
-    · rename_i hr
-      cases h
-      exact Or.inl ⟨hr, _, rfl⟩
-    · rename_i r hr
+  | some p =>
+    obtain ⟨lr, echo⟩ := p
+    cases echo with
+    | false =>
+      dsimp only at h
       split at h
-      · cases h
-      · rename_i a2 r2 hw
+      · rename_i hr
         cases h
-        exact Or.inr ⟨r, a2, r2, _, hr, hw, rfl⟩
+        exact Or.inl ⟨hr, _, rfl⟩
+      · rename_i r hr
+        simp only [Bool.false_eq_true, if_false] at h
+        split at h
+        · cases h
+        · rename_i a2 r2 hw
+          cases h
+          exact Or.inr ⟨r, a2, r2, _, hr, hw, rfl⟩
+    | true =>
+      dsimp only at h
+      split at h
+      · rename_i hr
+        cases h
+        exact Or.inl ⟨hr, rfl⟩
+      · rename_i r hr
+        simp only [if_true] at h
+        cases h
+        exact Or.inr ⟨r, hr, rfl⟩
 
 theorem handleRequestFromIdle_cases (a : Acc) (f : Frag) (ctrl : AppCtrl) (func : Nat)
     (objs : Except Nat (List ObjHdr)) (raw : List Nat) (a' : Acc) (ser : Option Series)
@@ -228,8 +274,8 @@ inductive Ev (pf : Option Frag) : Acc → Acc → Prop
       (objs : Except Nat (List ObjHdr)) (raw : List Nat) :
       a.1.mode = .unsolWait resp isNull retries dl → ReqOf pf f ctrl 0 objs raw → ctrl.uns = true →
       ctrl.seq = resp.ctrl.seq →
-      Ev pf a (afterUnsolSeries (emitCb ({ a.1 with lastBroadcast := none }, a.2) (.unsolConfirmed resp.ctrl.seq))
-        isNull true).1
+      Ev pf a (afterUnsolSeries (emitCb ({ a.1 with lastBroadcast := if a.1.unsolReported then none else a.1.lastBroadcast }, a.2)
+        (.unsolConfirmed resp.ctrl.seq)) isNull true).1
   | uwSolConfirm (a : Acc) (resp : Resp) (isNull : Bool) (retries : Option Nat) (dl : Nat) (f : Frag) (ctrl : AppCtrl)
       (objs : Except Nat (List ObjHdr)) (raw : List Nat) :
       a.1.mode = .unsolWait resp isNull retries dl → ReqOf pf f ctrl 0 objs raw → ctrl.uns = false →
@@ -237,6 +283,11 @@ inductive Ev (pf : Option Frag) : Acc → Acc → Prop
   | bcast (a : Acc) (f : Frag) (m : Nat) (ctrl : AppCtrl) (func : Nat) (objs : Except Nat (List ObjHdr)) (raw : List Nat)
       (a' : Acc) : ReqOf pf f ctrl func objs raw → func ≠ 0 → f.broadcast = some m →
       processBroadcast a f m ctrl func objs raw = some a' → Ev pf a a'
+  | uwBcastSeen (a : Acc) (resp : Resp) (isNull : Bool) (retries : Option Nat) (dl : Nat) (f : Frag) (m : Nat)
+      (ctrl : AppCtrl) (func : Nat) (objs : Except Nat (List ObjHdr)) (raw : List Nat) :
+      a.1.mode = .unsolWait resp isNull retries dl → ReqOf pf f ctrl func objs raw → func ≠ 0 →
+      f.broadcast = some m → a.1.lastBroadcast = some m →
+      Ev pf a ({ a.1 with unsolReported := false }, a.2)
   | nonRead (a : Acc) (f : Frag) (ctrl : AppCtrl) (func : Nat) (hs : List ObjHdr) (raw : List Nat)
       (a' : Acc) (r : Option Resp) : ReqOf pf f ctrl func (.ok hs) raw → func ≠ 0 → func ≠ 1 → f.broadcast = none →
       handleNonRead a func ctrl.seq f.id hs raw = some (a', r) → Ev pf a a'
@@ -305,25 +356,35 @@ theorem Base.ofHouse {a : Acc} {s' : OState} (h : House a.1 s') : Base a (s', a.
   · exact Or.inl h
   · exact Or.inr h
 
-theorem IdleStage2.base {a1 : Acc} {lr : Option LastReq} {f : Frag} {a' : Acc} (h : IdleStage2 a1 lr f a') :
+theorem IdleStage2.base {a1 : Acc} {lr : Option (LastReq × Bool)} {f : Frag} {a' : Acc} (h : IdleStage2 a1 lr f a') :
     Base a1 a' := by
   cases lr with
   | none => cases h; exact Base.refl _
-  | some lr =>
-    rcases h with ⟨_, lr', e⟩ | ⟨r, a2, r2, lr', _, hw, e⟩
-    · subst e; exact Base.ofHouse (House.lastReq _ _)
-    · subst e
-      exact Base.trans (Base.ofFrame ((writeSolicited_frame _ _ _ _ _ hw).weaken kS_of_kR))
-        (Base.ofHouse (House.lastReq _ _))
+  | some p =>
+    obtain ⟨lr, echo⟩ := p
+    cases echo with
+    | false =>
+      rcases h with ⟨_, lr', e⟩ | ⟨r, a2, r2, lr', _, hw, e⟩
+      · subst e; exact Base.ofHouse (House.lastReq _ _)
+      · subst e
+        exact Base.trans (Base.ofFrame ((writeSolicited_frame _ _ _ _ _ hw).weaken kS_of_kR))
+          (Base.ofHouse (House.lastReq _ _))
+    | true =>
+      rcases h with ⟨_, e⟩ | ⟨r, _, e⟩
+      · subst e; exact Base.ofHouse (House.lastReq _ _)
+      · subst e
+        exact Base.trans (Base.ofFrame ((repeatSolicited_frame _ _ _).weaken kS_of_kR))
+          (Base.ofHouse (House.lastReq _ _))
 
 theorem IdleStage1.base {a : Acc} {f : Frag} {ctrl : AppCtrl} {func : Nat} {objs : Except Nat (List ObjHdr)}
-    {raw : List Nat} {a1 : Acc} {lr : Option LastReq} (h : IdleStage1 a f ctrl func objs raw a1 lr) :
+    {raw : List Nat} {a1 : Acc} {lr : Option (LastReq × Bool)} (h : IdleStage1 a f ctrl func objs raw a1 lr) :
     Base a a1 := by
   cases h with
   | confirm => exact Base.refl _
   | bcast m a1 _ _ hp => exact Base.ofFrame ((processBroadcast_frame _ _ _ _ _ _ _ _ hp).1.weaken kS_of_keepBC)
   | nonRead hs a1 r _ _ _ _ hn => exact Base.ofFrame ((handleNonRead_frame _ _ _ _ _ _ _ _ hn).weaken kS_of_keepNR)
   | prep s1 lr hk _ _ => exact Base.ofFrame (P := fun _ => True) (Frame.state _ _ _ _ (kS_of_keepRd _ _ hk))
+  | echo s1 last hk _ _ _ _ => exact Base.ofFrame (P := fun _ => True) (Frame.state _ _ _ _ (kS_of_keepRd _ _ hk))
 
 theorem Ev.base {pf : Option Frag} {a a' : Acc} (h : Ev pf a a') : Base a a' := by
   cases h with
@@ -350,7 +411,8 @@ theorem Ev.base {pf : Option Frag} {a a' : Acc} (h : Ev pf a a') : Base a a' := 
     · exact Base.ofFrame ((clearWrittenEvents_frame _).weaken kS_of_kR)
   | fmtRead fir seq iin2 => exact ⟨rfl, Or.inl rfl, [], by simp⟩
   | unsolConf resp isNull retries dl f ctrl objs raw _ _ _ _ =>
-    refine Base.trans (b := emitCb ({ a.1 with lastBroadcast := none }, a.2) (.unsolConfirmed resp.ctrl.seq)) ?_ ?_
+    refine Base.trans (b := emitCb ({ a.1 with lastBroadcast := if a.1.unsolReported then none else a.1.lastBroadcast }, a.2)
+      (.unsolConfirmed resp.ctrl.seq)) ?_ ?_
     · exact ⟨rfl, Or.inl rfl, _, rfl⟩
     · exact Base.ofFrame ((afterUnsolSeries_frame _ _ _).weaken kS_of_kR')
   | uwSolConfirm resp isNull retries dl f ctrl objs raw _ _ _ =>
@@ -359,6 +421,7 @@ theorem Ev.base {pf : Option Frag} {a a' : Acc} (h : Ev pf a a') : Base a a' := 
     · exact Base.refl _
   | bcast f m ctrl func objs raw a' _ _ _ hp =>
     exact Base.ofFrame ((processBroadcast_frame _ _ _ _ _ _ _ _ hp).1.weaken kS_of_keepBC)
+  | uwBcastSeen resp isNull retries dl f m ctrl func objs raw _ _ _ _ _ => exact ⟨rfl, Or.inl rfl, [], by simp⟩
   | nonRead f ctrl func hs raw a' r _ _ _ _ hn =>
     exact Base.ofFrame ((handleNonRead_frame _ _ _ _ _ _ _ _ hn).weaken kS_of_keepNR)
   | uwDisable resp isNull retries dl f ctrl hs raw _ _ =>
@@ -387,10 +450,10 @@ theorem popRequest_house (s : OState) : House s (popRequest s).1 := by
   split
   · exact House.refl _
   · split
-    · exact House.refl _
-    · exact House.refl _
+    · exact House.pendNone _
     · split
-      · exact House.pendNone _
+      · exact House.refl _
+      · exact House.refl _
       · exact House.refl _
 
 theorem popRequest_request (s : OState) (f : Frag) (ctrl : AppCtrl) (func : Nat) (objs : Except Nat (List ObjHdr))
@@ -400,13 +463,13 @@ theorem popRequest_request (s : OState) (f : Frag) (ctrl : AppCtrl) (func : Nat)
   cases hp : s.pending with
   | none => simp only [popRequest, hp] at h; cases h
   | some f' =>
-    cases hq : parseRequest f'.data with
-    | insufficient => simp only [popRequest, hp, hq] at h; cases h
-    | headerError seq => simp only [popRequest, hp, hq] at h; cases h
-    | request c fn o r =>
-      by_cases hm : (!s.cfg.anymaster) = true ∧ f'.src ≠ s.cfg.master
-      · simp only [popRequest, hp, hq] at h; rw [if_pos hm] at h; cases h
-      · simp only [popRequest, hp, hq] at h ⊢
+    by_cases hm : (!s.cfg.anymaster) = true ∧ f'.src ≠ s.cfg.master
+    · simp only [popRequest, hp] at h; rw [if_pos hm] at h; cases h
+    · cases hq : parseRequest f'.data with
+      | insufficient => simp only [popRequest, hp, hq] at h; rw [if_neg hm] at h; cases h
+      | headerError seq => simp only [popRequest, hp, hq] at h; rw [if_neg hm] at h; cases h
+      | request c fn o r =>
+        simp only [popRequest, hp, hq] at h ⊢
         rw [if_neg hm] at h ⊢
         cases h
         refine ⟨rfl, hq, rfl, ?_⟩
@@ -416,6 +479,46 @@ theorem popRequest_request (s : OState) (f : Frag) (ctrl : AppCtrl) (func : Nat)
           right
           simp only [ha, Bool.not_false, true_and, Classical.not_not] at hm
           exact hm
+
+/-- an error fragment is reported only for the configured master (or any master), with the broadcast
+    flag of the fragment; the state is untouched -/
+theorem popRequest_error (s : OState) (src : Nat) (bc : Bool) (seq : Option Nat)
+    (h : (popRequest s).2 = .error src bc seq) :
+    ∃ f, s.pending = some f ∧ src = f.src ∧ bc = f.broadcast.isSome ∧ (popRequest s).1 = s ∧
+      (s.cfg.anymaster = true ∨ f.src = s.cfg.master) ∧
+      ((parseRequest f.data = .insufficient ∧ seq = none) ∨
+       ∃ q, parseRequest f.data = .headerError q ∧ seq = some q) := by
+  cases hp : s.pending with
+  | none => simp only [popRequest, hp] at h; cases h
+  | some f' =>
+    by_cases hm : (!s.cfg.anymaster) = true ∧ f'.src ≠ s.cfg.master
+    · simp only [popRequest, hp] at h; rw [if_pos hm] at h; cases h
+    · have hma : s.cfg.anymaster = true ∨ f'.src = s.cfg.master := by
+        cases ha : s.cfg.anymaster with
+        | true => exact Or.inl rfl
+        | false =>
+          right
+          simp only [ha, Bool.not_false, true_and, Classical.not_not] at hm
+          exact hm
+      cases hq : parseRequest f'.data with
+      | insufficient =>
+        simp only [popRequest, hp, hq] at h ⊢
+        rw [if_neg hm] at h ⊢
+        cases h
+        exact ⟨f', rfl, rfl, rfl, rfl, hma, Or.inl ⟨hq, rfl⟩⟩
+      | headerError q =>
+        simp only [popRequest, hp, hq] at h ⊢
+        rw [if_neg hm] at h ⊢
+        cases h
+        exact ⟨f', rfl, rfl, rfl, rfl, hma, Or.inr ⟨q, hq, rfl⟩⟩
+      | request c fn o r => simp only [popRequest, hp, hq] at h; rw [if_neg hm] at h; cases h
+
+/-- every fragment of a foreign master is dropped unanswered, whatever it parses to -/
+theorem popRequest_foreign (s : OState) (f : Frag) (hp : s.pending = some f)
+    (hm : s.cfg.anymaster = false ∧ f.src ≠ s.cfg.master) :
+    popRequest s = ({ s with pending := none }, .nothing) := by
+  simp only [popRequest, hp]
+  rw [if_pos ⟨by rw [hm.1]; rfl, hm.2⟩]
 
 /-! ## the skeleton theorems -/
 
@@ -479,7 +582,7 @@ theorem runPass_reach (hp0 : PendOk pf a0) (fuel : Nat) (a : Acc) (h : Reach pf 
       Star.tail h1 (Ev.house _ _ (House.trans hh (House.trans (House.pendNone _) (House.link _))))
     cases p with
     | nothing => exact afterRequest_reach _ ih _ h2
-    | error src seq =>
+    | error src bc seq =>
       dsimp only
       split
       · exact die_reach h3
@@ -489,10 +592,12 @@ theorem runPass_reach (hp0 : PendOk pf a0) (fuel : Nat) (a : Acc) (h : Reach pf 
         split at hw
         · cases hw; exact h3
         · split at hw
-          · cases hw
-          · rename_i a2 r2 hws
-            cases hw
-            exact Star.tail h3 (Ev.wsol _ _ _ _ _ hws)
+          · cases hw; exact h3
+          · split at hw
+            · cases hw
+            · rename_i a2 r2 hws
+              cases hw
+              exact Star.tail h3 (Ev.wsol _ _ _ _ _ hws)
     | request f ctrl func objs raw =>
       dsimp only
       have hr := popRequest_request { a.1 with notified := false } f ctrl func objs raw (by rw [hpop])
@@ -552,7 +657,7 @@ theorem solWaitOnFragment_reach (hp0 : PendOk pf a0) (a : Acc) (sr : Series) (dl
   have h3 : Reach pf a0 (onLinkActivity s, a.2) := Star.tail h (Ev.house _ _ (House.trans hh (House.link _)))
   cases p with
   | nothing => exact Star.tail h (Ev.house _ _ (House.trans hh (House.pendNone _)))
-  | error src seq => exact newReq _ h3
+  | error src bc seq => exact newReq _ h3
   | request f ctrl func objs raw =>
     dsimp only
     have hr := popRequest_request a.1 f ctrl func objs raw (by rw [hpop])
@@ -640,7 +745,7 @@ theorem unsolWaitOnFragment_reach (hp0 : PendOk pf a0) (a : Acc) (resp : Resp) (
     Star.tail h (Ev.house _ _ (House.trans hh (House.pendNone _)))
   cases p with
   | nothing => exact h1
-  | error src seq =>
+  | error src bc seq =>
     dsimp only
     split
     · exact die_reach h1
@@ -650,10 +755,12 @@ theorem unsolWaitOnFragment_reach (hp0 : PendOk pf a0) (a : Acc) (resp : Resp) (
       split at hw
       · cases hw; exact h2
       · split at hw
-        · cases hw
-        · rename_i a2 r2 hws
-          cases hw
-          exact Star.tail h2 (Ev.wsol _ _ _ _ _ hws)
+        · cases hw; exact h2
+        · split at hw
+          · cases hw
+          · rename_i a2 r2 hws
+            cases hw
+            exact Star.tail h2 (Ev.wsol _ _ _ _ _ hws)
   | request f ctrl func objs raw =>
     dsimp only
     have hr := popRequest_request a.1 f ctrl func objs raw (by rw [hpop])
@@ -694,7 +801,13 @@ theorem unsolWaitOnFragment_reach (hp0 : PendOk pf a0) (a : Acc) (resp : Resp) (
       split
       · exact die_reach h2
       · rename_i a' hp
-        exact Star.tail h3 (Ev.bcast _ f m ctrl func objs raw a' hreq cf.1 cf.2 hp)
+        have h4 := Star.tail h3 (Ev.bcast _ f m ctrl func objs raw a' hreq cf.1 cf.2 hp)
+        have hf4 := processBroadcast_frame _ _ _ _ _ _ _ _ hp
+        have hm4 : a'.1.mode = .unsolWait resp isNull retries dl := by
+          have hk := hf4.1.1
+          simp only [keepBC, Prod.mk.injEq] at hk
+          rw [hk.2.2.2.1]; exact hm2
+        exact Star.tail h4 (Ev.uwBcastSeen _ resp isNull retries dl f m ctrl func objs raw hm4 hreq cf.1 cf.2 hf4.2)
     · -- malformed
       split
       · exact die_reach h2
@@ -895,7 +1008,7 @@ def txnFold (s : OState) (items : List TxnItem) : OState × List OOut :=
 def keepDb (s : OState) :=
   (s.cfg, s.script, s.now, s.mode, s.restart, s.en1, s.en2, s.en3, s.lastReq, s.select, s.unsol, s.unsolSeq,
    s.deferred, s.lastRecorded, s.lastBroadcast, s.solBuf, s.unsolBuf, s.frameId, s.nextLinkStatus, s.pending,
-   s.notified)
+   s.notified, s.unsolReported)
 
 theorem txnFold_frame (s : OState) (items : List TxnItem) :
     keepDb (txnFold s items).1 = keepDb s ∧ ∀ o ∈ (txnFold s items).2, OOut.kind o = .line := by
@@ -1022,7 +1135,7 @@ inductive StepInit (env : OEnv) (s : OState) : OInput → Option Frag → OState
 
 /-- fields no step prologue touches -/
 def keepInit (s : OState) :=
-  (s.cfg, s.restart, s.en1, s.en2, s.en3, s.unsol, s.unsolSeq, s.lastBroadcast, s.script)
+  (s.cfg, s.restart, s.en1, s.en2, s.en3, s.unsol, s.unsolSeq, s.lastBroadcast, s.script, s.unsolReported)
 
 theorem StepInit.keep {env : OEnv} {s : OState} {inp : OInput} {pf : Option Frag} {s0 : OState} {o0 : List OOut}
     (h : StepInit env s inp pf s0 o0) : keepInit s0 = keepInit s ∧ ∀ o ∈ o0, OOut.kind o = .line := by
